@@ -8,6 +8,7 @@ pub mod c03;
 pub mod c04;
 pub mod c05;
 pub mod c06;
+pub mod c07;
 
 pub trait Check: UnitRunner {
   fn id(&self) -> &'static str;
@@ -26,6 +27,7 @@ pub fn make(id: &str, tier: Tier) -> Option<Box<dyn Check>> {
     "C04" => Some(Box::new(c04::C04::new(tier))),
     "C05" => Some(Box::new(c05::C05::new(tier))),
     "C06" => Some(Box::new(c06::C06::new(tier))),
+    "C07" => Some(Box::new(c07::C07::new(tier))),
     _ => None,
   }
 }
